@@ -29,6 +29,18 @@ type Case struct {
 	M        int    `json:"m,omitempty"`
 	Bound    int    `json:"bound"`
 	Choices  []int  `json:"choices,omitempty"`
+	// Cause: the contexts are cancelled WITH A CAUSE (context.WithCancelCause); the error a call returns must
+	// still wrap the context's error (context.Canceled), whatever else it says
+	Cause bool `json:"cause,omitempty"`
+}
+
+// withCancel is context.WithCancel, or WithCancelCause with an application-specific cause.
+func withCancel(parent context.Context, cause bool) (context.Context, context.CancelFunc) {
+	if !cause {
+		return context.WithCancel(parent)
+	}
+	ctx, cancel := context.WithCancelCause(parent)
+	return ctx, func() { cancel(errors.New("application is shutting down")) }
 }
 
 var h *hlib.H
@@ -40,7 +52,7 @@ type world struct {
 
 func (w *world) bad(sig, det string) { w.notes = append(w.notes, sig+"\x00"+det) }
 
-func done0() []byte { return tdspkg.Done{Token: tdspkg.TokDone}.Encode() }
+func done0() []byte     { return tdspkg.Done{Token: tdspkg.TokDone}.Encode() }
 func rs(v int32) []byte { return tdspkg.ReturnStatus{Value: v}.Encode() }
 
 func pkt(eom bool, body []byte) []byte {
@@ -57,7 +69,7 @@ func isClosedErr(err error) bool { return errors.Is(err, tds.ErrChannelClosed) }
 func body(c Case, w *world) func() {
 	return func() {
 		*w = world{facts: map[string]string{}}
-		parent, cancelParent := context.WithCancel(context.Background())
+		parent, cancelParent := withCancel(context.Background(), c.Cause)
 		defer cancelParent()
 		conn, pipe, err := hx.NewConn(parent, 2, 50)
 		if err != nil {
@@ -72,7 +84,7 @@ func body(c Case, w *world) func() {
 		switch c.Scenario {
 		case "T1-cancel-own-ctx", "T1-cancel-conn-ctx":
 			// NextPackage(wait) vs cancel vs an arriving packet
-			ctx, cancel := context.WithCancel(context.Background())
+			ctx, cancel := withCancel(context.Background(), c.Cause)
 			defer cancel()
 			vrt.GoNamed("canceller", func() {
 				if c.Scenario == "T1-cancel-own-ctx" {
@@ -115,7 +127,7 @@ func body(c Case, w *world) func() {
 			}
 			w.facts["result"] = "returned"
 		case "T2-send-cancelled":
-			ctx, cancel := context.WithCancel(context.Background())
+			ctx, cancel := withCancel(context.Background(), c.Cause)
 			cancel()
 			before := len(pipe.Writes())
 			err := ch.SendPackage(ctx, &tds.LanguagePackage{Cmd: strings.Repeat("q", c.N)})
@@ -424,6 +436,10 @@ func main() {
 		cases = append(cases, Case{Scenario: "T1-cancel-own-ctx", N: n}, Case{Scenario: "T1-cancel-conn-ctx", N: n})
 	}
 	cases = append(cases, Case{Scenario: "T1-until-err-then-cancel"}, Case{Scenario: "T1-until-nil-then-cancel"})
+	for n := 0; n <= 1; n++ {
+		cases = append(cases, Case{Scenario: "T1-cancel-own-ctx", N: n, Cause: true}, Case{Scenario: "T1-cancel-conn-ctx", N: n, Cause: true})
+	}
+	cases = append(cases, Case{Scenario: "T2-send-cancelled", N: 10, Cause: true})
 	cases = append(cases, Case{Scenario: "T2-send-cancelled", N: 10}, Case{Scenario: "T2-send-cancelled", N: 1200})
 	for _, s := range []string{"T3-close-vs-next", "T3-close-vs-until", "T3-close-vs-send"} {
 		cases = append(cases, Case{Scenario: s, N: 1})
